@@ -1,4 +1,5 @@
 mod analysis;
+mod attack;
 mod check;
 mod codec;
 mod env;
